@@ -8,7 +8,7 @@
 From Coq Require Import String.
 From Coq Require Import List NArith Bool Lia.
 From HS Require Import Base.Prelude Model.Value Model.Escape Model.Version Model.Json Model.ZincDump Model.ZincParse.
-From HS Require Import Proofs.EscapeP Proofs.JsonP Proofs.ZincParseP Proofs.ZincDumpP Proofs.ZincNumP Proofs.ZincListP Proofs.ZincGridP Proofs.ZincDictP Proofs.JsonGridP.
+From HS Require Import Proofs.EscapeP Proofs.JsonP Proofs.ZincParseP Proofs.ZincDumpP Proofs.ZincNumP Proofs.ZincListP Proofs.ZincGridP Proofs.ZincDictP Proofs.ZincMetaP Proofs.ZincNestP Proofs.JsonGridP Proofs.JsonNestP.
 Import ListNotations.
 Open Scope N_scope.
 
@@ -97,6 +97,44 @@ Proof.
       apply IH. lia.
 Qed.
 
+(* IN GENERAL: a 3.0 grid with grid and column metadata whose values are in the ZINC value relation (zv: every kind but
+   date-times, lists, dicts, nested grids) AND in the JSON value relation (jv) comes back as the same grid from both formats *)
+Theorem C07_grid_both_formats_general : forall n k mps cols rows rts,
+  full_grid_ok n mps cols rows rts ->
+  Forall (fun p => jv k (snd (pkv p))) mps ->
+  Forall (fun c => ~ In NAME (mkeys (snd c)) /\ Forall (fun p => jv k (snd (pkv p))) (snd c)) cols ->
+  Forall (Forall (jv k)) rows ->
+  (2 * n <= length (meta_text mps cols rts))%nat ->
+  zparse_grid (meta_text mps cols rts) = Ok (meta_grid mps cols rows) /\
+  (forall f j, jdump_grid (S f) V30 (map pkv mps) (map (fun c => (fst c, map pkv (snd c))) cols)
+                          (map (fun cells => combine (map fst cols) cells) rows) = Ok j ->
+               exists m, j = JObj m /\ jparse_grid (S f) m = Ok (meta_grid mps cols rows)).
+Proof.
+  intros n k mps cols rows rts OK Jm Jc Jr Hn.
+  destruct (full_grid_roundtrip n mps cols rows rts OK) as [_ [_ T]]. split; [exact (T Hn)|].
+  destruct OK as [Hm [Hmn [Hmv [Hne [Hc [Hcn Hrows]]]]]].
+  intros f j Hj. unfold meta_grid.
+  set (cols' := map (fun c : str * list (str * hval * str) => (fst c, map pkv (snd c))) cols) in *.
+  assert (NK : map fst cols' = map fst cols) by (unfold cols'; rewrite map_map; reflexivity).
+  apply (json_full_grid k f V30 (map pkv mps) cols' _ j); try exact Hj.
+  - destruct ver30_facts as [pv H]. exists pv. exact H.
+  - unfold cols'. destruct cols; [contradiction|discriminate].
+  - exact Hmn.
+  - exact Hmv.
+  - clear -Jm. induction Jm as [|p l Hp _ IH]; cbn [map]; constructor; [exact Hp|exact IH].
+  - rewrite NK. exact Hcn.
+  - unfold cols'. clear -Hc Jc. induction Jc as [|c l [Hn Hv] _ IH]; cbn [map]; [constructor|].
+    inversion Hc as [|? ? [_ [_ Hnd]] Hc']; subst. constructor; [|exact (IH Hc')].
+    split; [exact Hnd|]. split; [exact Hn|]. cbn [snd]. clear -Hv. induction Hv as [|p l Hp _ IH]; cbn [map]; constructor; [exact Hp|exact IH].
+  - clear -Hrows Jr Hcn NK. revert rts Hrows. induction Jr as [|cells rows Hcv _ IH]; intros rts Hrows; cbn [map]; [constructor|].
+    inversion Hrows as [|? ts ? rts' [Hl _] Hrest]; subst. constructor; [|exact (IH rts' Hrest)].
+    split.
+    + rewrite <- NK. apply canon_combine; [rewrite NK; exact Hcn|rewrite <- NK in Hl; rewrite map_length in Hl; exact Hl].
+    + clear -Hcv Hl. revert Hl. generalize (map fst cols). intros names Hl. revert names Hl.
+      induction Hcv as [|x cells Hx _ IH]; intros [|nm names] Hl; cbn in Hl; try discriminate; cbn [combine]; constructor; [exact Hx|].
+      apply IH. lia.
+Qed.
+
 Example C07_grid_nonvacuous :
   let names := [s_ "a"; s_ "b"] in
   let rows := [[VStr (s_ "x"); VList [VMarker; VBool true]]; [VNull; VUri (s_ "u")]] in
@@ -122,6 +160,7 @@ Proof.
 Qed.
 
 Print Assumptions C07_grid_both_formats.
+Print Assumptions C07_grid_both_formats_general.
 Print Assumptions C07_json_leg_nested.
 Print Assumptions C07_json_normalisation_idempotent_nested.
 Print Assumptions C07_zinc_leg.
